@@ -166,6 +166,128 @@ fn c09_q_error_r0_c1() {
     error_case::<0, 1>()
 }
 
+/// Two failing rows (rows 0 and 2 of three): each CellError carries its own row; the good row in between is unaffected.
+#[kani::proof]
+#[kani::unwind(8)]
+#[kani::stub(alloc::fmt::format, stub_format)]
+fn c09_q_two_error_rows() {
+    let v: [i64; 2] = kani::any();
+    let cells = vec![
+        Data::Error(CellErrorType::NA),
+        Data::Int(1),
+        Data::Int(v[0]),
+        Data::Int(v[1]),
+        Data::Int(2),
+        Data::Error(CellErrorType::Ref),
+    ];
+    let rg = mk_range(5, 3, 3, 2, cells);
+    let mut it: RangeDeserializer<'_, Data, (i64, i64)> =
+        RangeDeserializerBuilder::new().has_headers(false).from_range(&rg).unwrap();
+    let a = it.next();
+    let b = it.next();
+    let c = it.next();
+    match (&a, &b, &c) {
+        (Some(Err(DeError::CellError { err: e0, pos: p0 })), Some(Ok((x, y))), Some(Err(DeError::CellError { err: e2, pos: p2 }))) => {
+            assert!(*e0 == CellErrorType::NA && *p0 == (5, 3), "first failing row: own kind and position");
+            assert!(*x == v[0] && *y == v[1], "row between two failing rows unaffected");
+            assert!(*e2 == CellErrorType::Ref && *p2 == (7, 4), "second failing row: own kind and absolute position");
+        }
+        _ => assert!(false, "Err, Ok, Err expected"),
+    }
+    assert!(it.next().is_none());
+    kani::cover!(true, "end");
+    std::mem::forget((a, b, c));
+    std::mem::forget(it);
+    std::mem::forget(rg);
+}
+
+/// Map access by header name: a record type that collects (first byte of key, value) pairs through MapAccess.
+struct KPairs {
+    n: usize,
+    k: [u8; 3],
+    v: [i64; 3],
+}
+impl<'de> Deserialize<'de> for KPairs {
+    fn deserialize<D: Deserializer<'de>>(d: D) -> Result<Self, D::Error> {
+        struct V;
+        impl<'de> Visitor<'de> for V {
+            type Value = KPairs;
+            fn expecting(&self, f: &mut fmt::Formatter) -> fmt::Result {
+                f.write_str("map")
+            }
+            fn visit_map<A: de::MapAccess<'de>>(self, mut m: A) -> Result<KPairs, A::Error> {
+                let mut out = KPairs { n: 0, k: [0; 3], v: [0; 3] };
+                while out.n < 3 {
+                    match m.next_key::<String>()? {
+                        Some(key) => {
+                            out.k[out.n] = key.as_bytes()[0];
+                            out.v[out.n] = m.next_value::<i64>()?;
+                            out.n += 1;
+                            std::mem::forget(key);
+                        }
+                        None => break,
+                    }
+                }
+                Ok(out)
+            }
+        }
+        d.deserialize_map(V)
+    }
+}
+
+/// Headers [a, b, c]; selection (shape): reversed pair [c, a] / all. Fields are bound by header name, empty cells absent.
+fn map_case(sel: u8) {
+    let v: [i64; 3] = kani::any();
+    let cells = vec![
+        Data::String(String::from("a")),
+        Data::String(String::from("b")),
+        Data::String(String::from("c")),
+        Data::Int(v[0]),
+        Data::Empty,
+        Data::Int(v[2]),
+    ];
+    let rg = mk_range(1, 1, 2, 3, cells);
+    let r: Result<RangeDeserializer<'_, Data, KPairs>, DeError> = if sel == 0 {
+        RangeDeserializerBuilder::new().from_range(&rg)
+    } else {
+        RangeDeserializerBuilder::with_headers(&["c", "a"]).from_range(&rg)
+    };
+    let mut it = match r {
+        Ok(it) => it,
+        Err(ref _e) => {
+            assert!(false, "existing headers rejected");
+            return;
+        }
+    };
+    match it.next() {
+        Some(Ok(p)) => {
+            assert!(p.n == 2, "empty cells are absent from the map");
+            if sel == 0 {
+                assert!(p.k[0] == b'a' && p.v[0] == v[0] && p.k[1] == b'c' && p.v[1] == v[2], "fields bound by header name");
+            } else {
+                assert!(p.k[0] == b'c' && p.v[0] == v[2] && p.k[1] == b'a' && p.v[1] == v[0], "selected headers in any order bind the right columns");
+            }
+        }
+        _ => assert!(false, "map record"),
+    }
+    kani::cover!(true, "end");
+    std::mem::forget(it);
+    std::mem::forget(rg);
+}
+
+#[kani::proof]
+#[kani::unwind(8)]
+#[kani::stub(alloc::fmt::format, stub_format)]
+fn c09_q_map_all_headers() {
+    map_case(0)
+}
+#[kani::proof]
+#[kani::unwind(8)]
+#[kani::stub(alloc::fmt::format, stub_format)]
+fn c09_q_map_selected_reversed() {
+    map_case(1)
+}
+
 /// K3: cell -> primitive conversions of DataDeserializer (documented table), one cell, symbolic payloads.
 #[kani::proof]
 #[kani::unwind(8)]
